@@ -30,6 +30,12 @@ theorem upd_ge (lb : Int) (o : Option Int) : lb ≤ upd lb o := by
 theorem upd_ge_some (lb w : Int) : w ≤ upd lb (some w) := by
   simp [upd]; omega
 
+/-- what `enqueue_cutset` pushes: the cut-set nodes whose own bound still beats the incumbent (since the repair of
+    finding D14 the bound is **not** capped by the bound of the node just processed) -/
+def keepCut (lb : Int) (cs : List Sub) : List Sub :=
+  cs.filter (fun c => decide (c.ub > lb))
+
+/-- **pre-fix** `enqueue_cutset(ub)`: every cut-set node capped by the bound of the processed node `N` first -/
 def capCut (N : Sub) (lb : Int) (cs : List Sub) : List Sub :=
   (cs.map (fun c => { c with ub := min N.ub c.ub })).filter (fun c => decide (c.ub > lb))
 
@@ -42,7 +48,7 @@ def step (rest : List Sub) (lb : Int) (N : Sub) (r x : DDOut) : St :=
     else
       let lb2 := upd lb1 x.bestExact
       if x.isExact then ⟨rest, lb2⟩
-      else ⟨rest ++ capCut N lb2 x.cutset, lb2⟩
+      else ⟨rest ++ keepCut lb2 x.cutset, lb2⟩
 
 section
 variable (Phi : Nat → EInt) (opt : Int) (Ach : Int → Prop)
@@ -121,9 +127,8 @@ theorem step_inv (rest : List Sub) (lb : Int) (N : Sub) (r x : DDOut)
         · intro c hc
           rcases List.mem_append.mp hc with hc | hc
           · exact hgoodRest c hc
-          · simp only [capCut, List.mem_filter, List.mem_map] at hc
-            obtain ⟨⟨c0, hc0, rfl⟩, _⟩ := hc
-            exact hcg c0 hc0
+          · simp only [keepCut, List.mem_filter] at hc
+            exact hcg c hc.1
         · intro hgt
           dsimp only at hgt
           have h1 : opt > upd lb r.bestExact := Int.lt_of_le_of_lt (upd_ge _ x.bestExact) hgt
@@ -140,8 +145,8 @@ theorem step_inv (rest : List Sub) (lb : Int) (N : Sub) (r x : DDOut)
             have hyeq : y = opt := by omega
             subst hyeq
             have hcu := hcub c hc y hy h1
-            refine ⟨{ c with ub := min N.ub c.ub }, List.mem_append_right _ ?_, hy, by simp; omega⟩
-            simp only [capCut, List.mem_filter, List.mem_map, decide_eq_true_eq]
-            exact ⟨⟨c, hc, rfl⟩, by simp; omega⟩
+            refine ⟨c, List.mem_append_right _ ?_, hy, hcu⟩
+            simp only [keepCut, List.mem_filter, decide_eq_true_eq]
+            exact ⟨hc, by omega⟩
 end
 end Ddo.AbsSeq
